@@ -10,7 +10,7 @@ import (
 	sdk "github.com/cosmos/cosmos-sdk/types"
 )
 
-func decRaw(i *big.Int) sdk.Dec { return sdk.NewDecFromBigIntWithPrec(i, 18) }
+func decRaw(i *big.Int) sdk.Dec  { return sdk.NewDecFromBigIntWithPrec(i, 18) }
 func uintOf(i *big.Int) sdk.Uint { return sdk.NewUintFromBigInt(i) }
 
 func b2s(b bool) string {
